@@ -20,6 +20,7 @@ from fractions import Fraction
 import numpy as np
 
 from . import common as C
+from . import wp4 as W
 
 PROP = "C17"
 MODULE = "MCHap.Properties.C17"
@@ -68,9 +69,14 @@ CONFIGS = [
     (4, 4, 2, 0), (4, 4, 0, 2), (2, 2, 0, 2), (4, 2, 4, 0), (2, 4, 0, 4), (2, 2, 2, 0),
     (0, 0, 1, 1), (0, 0, 2, 2), (0, 4, 2, 2), (4, 0, 2, 2), (0, 2, 1, 1), (2, 0, 1, 3), (0, 4, 0, 2), (0, 0, 2, 0),
     (0, 6, 3, 3), (4, 0, 1, 2),
+    # a parent that hands over ALL its copies while the other one contributes too; odd parental ploidy; octoploids
+    (2, 4, 2, 2), (2, 2, 2, 2), (4, 2, 2, 2), (2, 6, 2, 3), (3, 4, 1, 2), (3, 3, 2, 1), (5, 4, 2, 2), (3, 5, 1, 3), (5, 3, 3, 1),
+    (3, 0, 2, 1), (0, 5, 2, 2), (8, 8, 4, 4), (8, 4, 4, 2), (2, 8, 1, 4), (0, 8, 2, 4),
 ]
 ERRORS = [0.0, 0.01, 0.5, 1.0]
-LAMBDAS = [0.0, 0.1, 0.5]
+LAMBDAS = [0.0, 0.1, 0.5, 1.0]
+# per-edge error pairs: exactly one side certain, the other strictly inside (0, 1) / certainly wrong
+EDGE_PAIRS = [(0.0, 0.01), (0.0, 0.2), (0.0, 0.5), (0.2, 0.0), (0.5, 0.0), (0.99, 0.0), (0.0, 1.0), (1.0, 0.0), (0.01, 0.5), (0.5, 0.01)]
 
 
 def counts(alleles, n):
@@ -151,8 +157,164 @@ def trio_line(op, d, dp, dq, pp, pq, tp, tq, lp, lq, ep, eq, fs, extra=()):
                      C.rat_str(ep), C.rat_str(eq)] + rtoks(fs) + [str(x) for x in extra])
 
 
+def cli_case(chk, r, tmp, tag, ARGS, CP, LocusPrior, SNP, FORMAT, classes, run_pederr):
+    """one pedigree specification through parse_pedigree_arguments and program.call_sample_genotypes (sampler replaced by a
+    recorder that returns a generated trace): dicts, sampler arrays and PEDERR against what the files say"""
+    case = W.gen_cli_case(r, tmp, tag)
+    S, names, forms = case["S"], case["names"], case["forms"]
+    info = {"files": {k: (open(v).read() if isinstance(v, str) and v.startswith(tmp) else v)
+                      for k, v in case["args"].items() if k.endswith("_argument")},
+            "bam_samples": case["bam_samples"]}
+    for k, v in forms.items():
+        chk.count("cli:%s=%s" % (k, v))
+    chk.count("cli:cases")
+    if not all(case["has_bam"]):
+        chk.count("cli:member-without-bam")
+    if (S["tau"][:, 0] != S["tau"][:, 1]).any():
+        chk.count("cli:unbalanced-tau")
+    if (S["tau"] == 0).any():
+        chk.count("cli:tau=0")
+    if (S["lam"] == 1.0).any():
+        chk.count("cli:lambda=1")
+    if any(S["err"][k, 0] != S["err"][k, 1] for k in range(S["N"])):
+        chk.count("cli:per-edge-error-differs")
+    chk.case(["cli", info], S["N"] >= 2 and bool((S["parents"] >= 0).any()))
+    try:
+        parsed = ARGS.parse_pedigree_arguments(**case["args"])
+    except Exception as e:   # noqa: BLE001
+        chk.violation("parse_pedigree_arguments raises on a well-formed pedigree specification: %r" % (e,), info, "C17/cli/raises")
+        return
+    # ---- dicts
+    nm = lambda k: names[k] if k >= 0 else None
+    want = {
+        "samples": case["final"],
+        "sample_ploidy": {names[k]: int(S["ploidy"][k]) for k in range(S["N"])},
+        "sample_parents": {names[k]: (nm(int(S["parents"][k, 0])), nm(int(S["parents"][k, 1]))) for k in range(S["N"])},
+        "gamete_ploidy": {names[k]: (int(S["tau"][k, 0]), int(S["tau"][k, 1])) for k in range(S["N"])},
+        "gamete_ibd": {names[k]: (float(S["lam"][k, 0]), float(S["lam"][k, 1])) for k in range(S["N"])},
+        "gamete_error": {names[k]: (float(S["err"][k, 0]), float(S["err"][k, 1])) for k in range(S["N"])},
+    }
+    for key, exp in want.items():
+        got = parsed.get(key)
+        if isinstance(exp, dict):
+            got = {k: (tuple(v) if isinstance(v, (tuple, list)) else v) for k, v in (got or {}).items() if k in exp}
+        if got != exp:
+            chk.violation("parse_pedigree_arguments: '%s' differs from what the files / arguments say" % key,
+                          {**info, "got": str(got), "expected": str(exp)}, "C17/cli/parse")
+            return
+    for k in range(S["N"]):
+        if not case["has_bam"][k] and parsed["sample_bams"].get(names[k]) != []:
+            chk.violation("a pedigree member without alignment file is not given an empty list of alignment files",
+                          {**info, "sample": names[k], "got": str(parsed["sample_bams"].get(names[k]))}, "C17/cli/parse")
+            return
+    # ---- program glue
+    L = W.gen_locus(r)
+    variants = tuple(SNP("ctg", 100 + p, 101 + p, ".", al) for p, al in zip(L["positions"], L["alleles"]))
+    locus = LocusPrior(contig="ctg", start=100, stop=100 + len(L["sequence"]), name="loc", sequence=L["sequence"], variants=variants,
+                       alts=tuple(L["haps"][1:]), frequencies=L["frequencies"].copy(), mask_reference_allele=L["mask_ref"])
+    keep = [k for k in range(len(L["haps"])) if L["frequencies"][k] > 0 and not (k == 0 and L["mask_ref"])]
+    if not keep:
+        chk.count("cli:skipped-no-haplotype")
+        return
+    n = len(keep)
+    chains, steps, burn = r.choice([1, 2]), r.choice([4, 6, 9]), r.choice([0, 1, 3])
+    order = case["final_idx"]
+    S2 = dict(S, **W.expected_arrays(case))
+    S2 = dict(N=S["N"], ploidy=S2["sample_ploidy"], parents=S2["sample_parents"], tau=S2["gamete_tau"], lam=S2["gamete_lambda"],
+              err=S2["gamete_error"])
+    # the trace the recorder hands back: generated in an order in which parents precede children, stored in sampler order
+    gen_order = []
+    left = list(range(S2["N"]))
+    for _ in range(S2["N"] + 1):                      # bounded topological sort
+        for k in list(left):
+            if all(int(x) < 0 or int(x) in gen_order for x in S2["parents"][k]):
+                gen_order.append(k); left.remove(k)
+    full = np.full((chains, steps, S2["N"], int(S2["ploidy"].max())), -1, dtype=np.int16)
+    if not left:
+        pos = {k: j for j, k in enumerate(gen_order)}
+        Sg = dict(N=S2["N"], ploidy=S2["ploidy"][gen_order], tau=S2["tau"][gen_order], lam=S2["lam"][gen_order],
+                  parents=np.array([[pos[int(x)] if x >= 0 else -1 for x in S2["parents"][k]] for k in gen_order], dtype=np.int64))
+        tg = W.build_trace(r, Sg, n, chains, steps)
+        for j, k in enumerate(gen_order):
+            full[:, :, k, :] = tg[:, :, j, :]
+    rec = {}
+
+    class Recorder:
+        def __init__(self, **kw):
+            rec["kwargs"] = kw
+
+        def fit(self, sample_reads, sample_read_counts, initial=None):
+            rec["reads"] = np.array(sample_reads, copy=True); rec["counts"] = np.array(sample_read_counts, copy=True)
+            return classes.PedigreeAllelesMultiTrace(full.copy(), n_allele=n)
+
+    reads = {}
+    prog = CP.program(vcf=None, ref=None, samples=parsed["samples"], sample_bams=parsed["sample_bams"], sample_ploidy=parsed["sample_ploidy"],
+                      sample_inbreeding=parsed["sample_inbreeding"], sample_parents=parsed["sample_parents"],
+                      gamete_ploidy=parsed["gamete_ploidy"], gamete_ibd=parsed["gamete_ibd"], gamete_error=parsed["gamete_error"],
+                      mcmc_chains=chains, mcmc_steps=steps, mcmc_burn=burn, info_fields=[], format_fields=[], random_seed=r.randrange(1000))
+    data = prog._locus_data(locus, parsed["sample_bams"])
+    for k in order:
+        rd, ct, calls = W.gen_sample_reads(r, L["alleles"], case["has_bam"][k])
+        data.read_dists[names[k]] = rd; data.read_counts[names[k]] = ct; data.read_calls[names[k]] = calls
+        reads[names[k]] = (rd, ct)
+        if len(rd) == 0:
+            chk.count("cli:sample-with-zero-reads")
+    info = {**info, "haplotypes": L["haps"], "frequencies": L["frequencies"].tolist(), "mask_reference": L["mask_ref"],
+            "chains": chains, "steps": steps, "burn": burn, "sampler_order": parsed["samples"]}
+    orig = CP.PedigreeCallingMCMC
+    CP.PedigreeCallingMCMC = Recorder
+    try:
+        try:
+            prog.call_sample_genotypes(data)
+        except Exception as e:   # noqa: BLE001
+            cause = e.__cause__
+            chk.violation("call-pedigree call_sample_genotypes raises on a well-formed pedigree / trace: %r (cause %r)" % (e, cause),
+                          {**info, "trace": full.tolist()}, "C17/cli/raises")
+            return
+    finally:
+        CP.PedigreeCallingMCMC = orig
+    kw = rec.get("kwargs")
+    if kw is None:
+        chk.violation("call_sample_genotypes did not run the pedigree sampler although haplotypes are available", info, "C17/cli/arrays")
+        return
+    exp = W.expected_arrays(case)
+    for key, e in exp.items():
+        g = np.asarray(kw.get(key))
+        if g.shape != e.shape or not bool(np.all(g == e)):          # a NaN entry is a difference
+            chk.violation("the array '%s' handed to the pedigree sampler differs from the pedigree files (rows in sample order, "
+                          "columns parent p / parent q)" % key, {**info, "got": g.tolist(), "expected": e.tolist()}, "C17/cli/arrays")
+            return
+    for key, e in (("steps", steps), ("annealing", burn), ("chains", chains)):
+        if kw.get(key) != e:
+            chk.violation("sampler argument '%s' differs from the program setting" % key, {**info, "got": kw.get(key), "expected": e},
+                          "C17/cli/arrays")
+    enc = locus.encode_haplotypes()[keep]
+    if not np.array_equal(np.asarray(kw.get("haplotypes")), enc) or not np.allclose(np.asarray(kw.get("frequencies")), L["frequencies"][keep],
+                                                                                     rtol=0, atol=0):
+        chk.violation("haplotypes / prior frequencies handed to the pedigree sampler are not the unmasked input haplotypes",
+                      {**info, "got": [np.asarray(kw.get("haplotypes")).tolist(), np.asarray(kw.get("frequencies")).tolist()]}, "C17/cli/arrays")
+    for j, sname in enumerate(parsed["samples"]):
+        rd, ct = reads[sname]
+        R, Cn = rec["reads"], rec["counts"]
+        ok = R.shape[0] == len(parsed["samples"]) and len(rd) <= R.shape[1] and np.array_equal(R[j, :len(rd)], rd, equal_nan=True) \
+            and np.array_equal(Cn[j, :len(ct)], ct) and bool((Cn[j, len(ct):] == 0).all())
+        if not ok:
+            chk.violation("the reads handed to the pedigree sampler for a sample are not that sample's reads (padding rows must have count 0)",
+                          {**info, "sample": sname}, "C17/cli/arrays")
+            break
+    # ---- PEDERR of the record = incongruence of the post-burn-in trace under the parameters of the files
+    inc = run_pederr(S2, full, n, burn, "call_pedigree.program.call_sample_genotypes (FORMAT/PEDERR)", info) if not left else None
+    if inc is not None:
+        for j, sname in enumerate(parsed["samples"]):
+            got = data.sampledata[FORMAT.PEDERR].get(sname)
+            if got is None or not (abs(float(got) - inc[j]) <= 1e-12):
+                chk.violation("FORMAT/PEDERR of a sample is not the incongruence of its post-burn-in trace",
+                              {**info, "sample": sname, "got": None if got is None else float(got), "expected": inc[j]}, "C17/cli/pederr")
+                break
+
+
 def run(tier, replay=None):
-    from mchap.pedigree import prior, validation
+    from mchap.pedigree import classes, prior, validation
 
     chk = C.Check(PROP, tier, MODULE, THEOREMS, RULE, exe=EXE, assumptions=[
         "float64 log-space evaluation (log, exp, lgamma, log1p) is compared at rel 1e-9, sums at 1e-9 absolute; not proved",
@@ -224,8 +386,8 @@ def run(tier, replay=None):
     lines, meta = [], []
     for i in range(n_gam):
         n = r.choice([1, 2, 3, 3, 4, 4])
-        ploidy = r.choice([2, 4, 4, 6])
-        tau = r.choice([t for t in (1, 2, 2, 3) if t <= ploidy])
+        ploidy = r.choice([2, 4, 4, 6, 3, 5, 8])
+        tau = r.choice([t for t in (1, 2, 2, 3, 0, 4) if t <= ploidy])
         lam = r.choice(LAMBDAS) if tau == 2 else (r.choice([0.0, 0.0, 0.0, 0.1]))
         parent = gen_parent(r, n, ploidy, ploidy)
         dp = counts(parent, n)
@@ -239,7 +401,7 @@ def run(tier, replay=None):
         args = (np.array(gv, dtype=np.int64), tau, np.array(dp, dtype=np.int64), ploidy, lam)
         impl = prob(call(prior.gamete_log_pmf, *args))
         model = a if a == "err" else float(C.parse_rat(a.split()[0]))
-        chk.count("gamete:tau=%d" % tau); chk.count("gamete:lam=%s" % lam)
+        chk.count("gamete:tau=%d" % tau); chk.count("gamete:lam=%s" % lam); chk.count("gamete:ploidy=%d" % ploidy)
         chk.case(line, n >= 2 and (max(gv) >= 2 or max(dp) >= 2), sample={"request": line, "impl": impl, "model": a})
         case = {"gamete": gv, "tau": tau, "parent": dp, "ploidy": ploidy, "lambda": lam, "impl": impl, "model": a}
         if not same(impl, model):
@@ -268,6 +430,8 @@ def run(tier, replay=None):
         pp, pq, tp, tq = CONFIGS[i % len(CONFIGS)] if i < 2 * len(CONFIGS) else r.choice(CONFIGS)
         if tier != "thorough" and n == 4 and tp + tq >= 6 and r.random() < 0.5:
             n = 3
+        if tp + tq >= 8 or max(pp, pq) >= 8:
+            n = min(n, 3 if tier == "thorough" else 2 if tp + tq >= 8 else 3)
         m = max(pp, pq, tp + tq, 2)
         par_p = gen_parent(r, n, pp, m)
         par_q = gen_parent(r, n, pq, m)
@@ -279,18 +443,37 @@ def run(tier, replay=None):
         if r.random() < 0.35:
             ep = 1.0 if pp == 0 else 0.0
             eq = 1.0 if pq == 0 else 0.0
+        elif pp and pq and r.random() < 0.3:
+            ep, eq = r.choice(EDGE_PAIRS)
+        shuffled = r.random() < 0.3                      # progeny alleles in arbitrary order: slot vectors with interior zeros
+        smode = r.choice(["fresh", "reuse", "reuse", "junk", "junk"])
         kind, freqs = gen_freqs(r, n)
         with np.errstate(divide="ignore"):
             logf = np.log(freqs)
         use_py = (i % 9 == 0)
         for prog in itertools.combinations_with_replacement(range(n), tp + tq):
-            meta.append((i, n, pp, pq, tp, tq, par_p, par_q, lp, lq, ep, eq, kind, freqs, logf, use_py, prog, m))
+            order = list(prog)
+            if shuffled:
+                r.shuffle(order)
+            meta.append((i, n, pp, pq, tp, tq, par_p, par_q, lp, lq, ep, eq, kind, freqs, logf, use_py, prog, m, tuple(order), smode))
     # run the implementation first (the slot vectors are read back from its scratch arrays)
     results = []
-    for (i, n, pp, pq, tp, tq, par_p, par_q, lp, lq, ep, eq, kind, freqs, logf, use_py, prog, m) in meta:
-        parr = np.array(list(prog) + [-2] * (m - len(prog)), dtype=np.int64)
-        sc = scratch(m)
+    shared = {}
+    for (i, n, pp, pq, tp, tq, par_p, par_q, lp, lq, ep, eq, kind, freqs, logf, use_py, prog, m, order, smode) in meta:
+        parr = np.array(list(order) + [-2] * (m - len(order)), dtype=np.int64)
+        if smode == "fresh":
+            sc = scratch(m)
+        elif smode == "reuse":                              # one set of arrays for all calls, as the sampler does
+            sc = shared.setdefault(m, scratch(m))
+        else:                                               # whatever an earlier (longer, different) call left behind
+            sc = scratch(m)
+            for k_, arr in sc.items():
+                if arr.dtype == np.float64:
+                    arr[:] = [r.choice([np.nan, -np.inf, 0.0, -0.7, 3.5]) for _ in range(m)]
+                else:
+                    arr[:] = [r.randint(-3, 9) for _ in range(m)]
         v = call(prior.trio_log_pmf, parr, par_p, par_q, pp, pq, tp, tq, lp, lq, ep, eq, logf, **sc)
+        sc = {k_: sc[k_].copy() for k_ in ("dosage", "dosage_p", "dosage_q")}     # what THIS call left (the arrays are reused)
         vpy = None
         if use_py:
             vpy = call(prior.trio_log_pmf.py_func, parr, par_p, par_q, pp, pq, tp, tq, lp, lq, ep, eq, logf, **scratch(m))
@@ -300,7 +483,13 @@ def run(tier, replay=None):
         lines.append(trio_line("ped.trio", d, dpv, dqv, pp, pq, tp, tq, lp, lq, ep, eq, freqs))
         # slot form: what the code itself built
         fslots = [float(freqs[a]) if a >= 0 else 0.0 for a in parr]
-        lines.append(trio_line("ped.trio", sc["dosage"], sc["dosage_p"], sc["dosage_q"], pp, pq, tp, tq, lp, lq, ep, eq, fslots))
+        if min(int(sc[k_].min()) for k_ in sc) < 0:        # stale junk left in a scratch vector: not a request the model can read
+            chk.violation("trio_log_pmf leaves values of an earlier call in its dosage scratch vectors (they are inputs of the gamete loops)",
+                          {"progeny": parr.tolist(), "parent_p": par_p.tolist(), "parent_q": par_q.tolist(), "ploidy": [pp, pq], "tau": [tp, tq],
+                           "scratch_after": {k_: sc[k_].tolist() for k_ in sc}}, "C17/trio/scratch-stale")
+            lines.append(lines[-1])
+        else:
+            lines.append(trio_line("ped.trio", sc["dosage"], sc["dosage_p"], sc["dosage_q"], pp, pq, tp, tq, lp, lq, ep, eq, fslots))
         lines.append(" ".join(["ped.slots"] + vtoks(parr) + vtoks(par_p) + vtoks(par_q)))
         lines.append(" ".join(["ped.valid.trio"] + vtoks(d) + vtoks(counts(par_p, n)) + vtoks(counts(par_q, n))
                               + [str(tp), str(tq), C.rat_str(lp), C.rat_str(lq)]))
@@ -309,15 +498,18 @@ def run(tier, replay=None):
 
     totals = {}
     for j, (mt, (v, vpy, sc, parr)) in enumerate(zip(meta, results)):
-        (i, n, pp, pq, tp, tq, par_p, par_q, lp, lq, ep, eq, kind, freqs, logf, use_py, prog, m) = mt
+        (i, n, pp, pq, tp, tq, par_p, par_q, lp, lq, ep, eq, kind, freqs, logf, use_py, prog, m, order, smode) = mt
         a_cnt, a_slot, a_slots, a_valid = ans[4 * j: 4 * j + 4]
         impl = prob(v)
         cfg = "cfg=%d,%d,%d,%d" % (pp, pq, tp, tq)
         chk.count(cfg); chk.count("freq=" + kind); chk.count("n_alleles=%d" % n)
         chk.count("err=%s,%s" % (ep, eq)); chk.count("lam=%s,%s" % (lp, lq))
+        chk.count("scratch=" + smode); chk.count("progeny-order=" + ("shuffled" if order != prog else "sorted"))
+        if pp and pq and ((ep == 0.0) != (eq == 0.0)) and 0.0 < max(ep, eq) < 1.0:
+            chk.count("err:one-side-zero-other-inside(0,1)")
         nontriv = n >= 2 and (len(set(prog)) < len(prog) or max(counts(par_p, n) + counts(par_q, n)) >= 2)
         chk.case(lines[4 * j], nontriv, sample={"request": lines[4 * j], "impl": impl, "model": a_cnt})
-        case = {"progeny": list(prog), "parent_p": par_p.tolist(), "parent_q": par_q.tolist(), "ploidy_p": pp, "ploidy_q": pq,
+        case = {"progeny": list(order), "parent_p": par_p.tolist(), "parent_q": par_q.tolist(), "ploidy_p": pp, "ploidy_q": pq,
                 "tau": [tp, tq], "lambda": [lp, lq], "error": [ep, eq], "frequencies": freqs.tolist(), "impl": impl, "model": a_cnt}
         mc = a_cnt if a_cnt == "err" else float(C.parse_rat(a_cnt.split()[0]))
         ms = a_slot if a_slot == "err" else float(C.parse_rat(a_slot.split()[0]))
@@ -344,7 +536,7 @@ def run(tier, replay=None):
         # ---------------- validity
         if isinstance(impl, str):
             continue
-        prog_arr = np.array(prog, dtype=np.int64)
+        prog_arr = np.array(order, dtype=np.int64)
         pa = par_p[:pp] if pp else None
         qa = par_q[:pq] if pq else None
         valid = None
@@ -376,9 +568,24 @@ def run(tier, replay=None):
         zero_err = (ep == 0.0 or pp == 0) and (eq == 0.0 or pq == 0)
         if zero_err and (pp and pq or (freqs > 0).all()):
             chk.count("zero-iff-invalid")
+            lam_one = (pp and tp == 2 and lp == 1.0) or (pq and tq == 2 and lq == 1.0)
+            if lam_one:
+                chk.count("zero-iff-invalid:lambda=1")
+            # independent statement of "possible": a split into two gametes the parents can produce
+            possible = W.spec_positive(list(order), [int(x) for x in pa] if pa is not None else None,
+                                       [int(x) for x in qa] if qa is not None else None, tp, tq, lp, lq)
+            if possible is not None and (impl > 0) != possible:
+                chk.disagreement("zero-error trio_log_pmf is positive although no pair of possible gametes gives the progeny, or vice versa",
+                                 {**case, "possible_by_definition": possible})
             if (impl > 0) != bool(valid):
-                chk.violation("with zero parent error the inheritance probability is positive but the validity test fails, or vice versa",
-                              {**case, "valid": bool(valid)}, "C17/valid/positive-iff")
+                if lam_one and bool(valid) and not (impl > 0):
+                    # candidate defect: the validity test widens the constraint for lambda > 0 but keeps the
+                    # no-double-reduction gametes, which have probability (1 - lambda) = 0 at lambda = 1
+                    chk.violation("lambda = 1 (fully homozygous diploid gametes), zero parent error: the inheritance probability is zero "
+                                  "but the validity test that defines PEDERR passes", {**case, "valid": True}, "C17/trio_valid/lambda-one")
+                else:
+                    chk.violation("with zero parent error the inheritance probability is positive but the validity test fails, or vice versa",
+                                  {**case, "valid": bool(valid)}, "C17/valid/positive-iff")
     for i, (tot, case) in totals.items():
         if not (abs(tot - 1.0) <= 1e-9):     # a NaN total is a failure too
             chk.violation("trio probabilities do not sum to one over all unordered progeny genotypes", {**case, "sum": tot}, "C17/trio/sum")
@@ -400,4 +607,80 @@ def run(tier, replay=None):
         chk.count("duo_valid"); chk.case(line, len(set(prog)) < len(prog))
         if tag != a:
             chk.disagreement("duo_valid != model", {"progeny": prog, "parent": par.tolist(), "tau": tau, "lambda": lam, "impl": tag, "model": a})
+    # ------------------------------------------------------------------ PEDERR: _trace_incongruence on stacked states
+    def run_pederr(S, trace, n, burn, where, extra):
+        """compare PedigreeAllelesMultiTrace.incongruence with the fraction of zero-probability observations"""
+        T = classes.PedigreeAllelesMultiTrace(trace, n_allele=n)
+        if burn:
+            T = T.burn(burn)
+        case = {"where": where, "ploidy": S["ploidy"].tolist(), "parents": S["parents"].tolist(), "tau": S["tau"].tolist(),
+                "lambda": S["lam"].tolist(), "n_alleles": n, "burn": burn, "trace": trace.tolist(), **extra}
+        try:
+            inc = T.incongruence(sample_ploidy=S["ploidy"], sample_parents=S["parents"], gamete_tau=S["tau"], gamete_lambda=S["lam"])
+            inc = [float(x) for x in inc]
+        except Exception as e:   # noqa: BLE001
+            chk.violation("PedigreeAllelesMultiTrace.incongruence raises on a well-formed pedigree trace: %r" % (e,), case, "C17/pederr/raises")
+            return None
+        zero, bad, mism = W.pederr_expectations(prior, S, trace[:, burn:], n)
+        for mm in mism:
+            if "raised" in mm:
+                chk.violation("trio_log_pmf raises on a well-formed trio of a pedigree trace (zero parent error, flat frequencies, scratch "
+                              "arrays reused between calls): " + mm["raised"], {**case, **mm}, "C17/trio/raises")
+                continue
+            chk.disagreement("zero-error trio_log_pmf is positive although no pair of possible gametes gives the progeny, or vice versa",
+                             {**case, **mm})
+        for i in range(S["N"]):
+            p_, q_ = int(S["parents"][i, 0]), int(S["parents"][i, 1])
+            shape = "founder" if (p_ < 0 and q_ < 0) else "duo-p" if q_ < 0 else "duo-q" if p_ < 0 else "selfed" if p_ == q_ else "trio"
+            chk.count("pederr:" + shape)
+            if int(S["ploidy"][i]) != int(S["ploidy"].max()):
+                chk.count("pederr:padded-row")
+            if 0.0 < zero[i] < 1.0:
+                chk.count("pederr:fraction-strictly-between-0-and-1")
+            if not (abs(inc[i] - zero[i]) <= 1e-12):
+                one = W.edge_lambda_one(S, i)
+                sig = "C17/trio_valid/lambda-one" if (one and inc[i] < zero[i]) else "C17/pederr/fraction"
+                chk.violation("PEDERR (fraction of observations failing the validity test) differs from the fraction of observations "
+                              "with zero inheritance probability under zero parent error" + (" (lambda = 1 edge)" if one else ""),
+                              {**case, "individual": i, "incongruence": inc[i], "fraction_zero_probability": float(zero[i]),
+                               "fraction_impossible_by_definition": float(bad[i])}, sig)
+        return inc
+
+    rp = C.rng(PROP + ":pederr")
+    for i in range({"warm": 2, "quick": 120, "thorough": 1200}[tier]):
+        S0 = W.gen_structure(rp, uniform=rp.random() < 0.2)
+        n = rp.choice([2, 2, 3, 3, 4])
+        chains, steps = rp.choice([1, 2, 3]), rp.choice([1, 3, 5, 8])
+        tr0 = W.build_trace(rp, S0, n, chains, steps, sort=rp.random() < 0.7)
+        S, inv, _ = W.permute_structure(rp, S0)
+        trace = np.ascontiguousarray(tr0[:, :, inv, :])
+        burn = rp.choice([0, 0, 1, 2]) if steps > 2 else 0
+        key = {"ploidy": S["ploidy"].tolist(), "parents": S["parents"].tolist(), "tau": S["tau"].tolist(), "lambda": S["lam"].tolist(),
+               "trace": trace.tolist(), "burn": burn}
+        chk.case(["pederr", key], bool((S["parents"] >= 0).any()) and n >= 2)
+        chk.count("pederr:pedigrees"); chk.count("pederr:chains=%d" % chains)
+        if (S["ploidy"] % 2 == 1).any():
+            chk.count("pederr:odd-ploidy-member")
+        if (S["tau"][:, 0] != S["tau"][:, 1]).any():
+            chk.count("pederr:unbalanced-tau")
+        if any((S["parents"][k] > k).any() for k in range(S["N"])):
+            chk.count("pederr:parent-index-above-child")
+        run_pederr(S, trace, n, burn, "PedigreeAllelesMultiTrace.incongruence", {})
+
+    # ------------------------------------------------------------------ call-pedigree glue: files -> dicts -> sampler arrays -> PEDERR
+    import shutil
+    import tempfile
+    import warnings
+    rc = C.rng(PROP + ":cli")
+    tmp = tempfile.mkdtemp(prefix="verif_c17_")
+    try:
+        with warnings.catch_warnings():                # mchap.application.baseclass turns RuntimeWarning into an error at import
+            from mchap.application import arguments as ARGS, call_pedigree as CP
+            from mchap.io.loci import LocusPrior, SNP
+            import mchap.io.vcf.formatfields as FORMAT
+            warnings.simplefilter("error", RuntimeWarning)       # as in the running program
+            for i in range({"warm": 2, "quick": 60, "thorough": 600}[tier]):
+                cli_case(chk, rc, tmp, "c%d" % i, ARGS, CP, LocusPrior, SNP, FORMAT, classes, run_pederr)
+    finally:
+        shutil.rmtree(tmp, ignore_errors=True)
     return chk.finish()
